@@ -15,7 +15,7 @@ import time
 import z3
 
 from mir import parse_mir, INT_TYPES
-from sym import (Executor, State, VInt, VBool, VAgg, VVec, VRef, VOpaque, VUnit, Finding, PathEnd, is_true)
+from sym import (Executor, State, VInt, VBool, VAgg, VVec, VRef, VOpaque, VUnit, VIter, Finding, PathEnd, is_true)
 
 
 class Context:
@@ -85,7 +85,7 @@ def parse_structs(src):
             for m in re.finditer(r"struct (\w+)(?:<[^>]*>)?\s*\{(.*?)\n\}", text, re.S):
                 body = re.sub(r"//.*", "", m.group(2))
                 body = re.sub(r"#\[[^\]]*\]", "", body)
-                names = re.findall(r"(?:pub(?:\([^)]*\))?\s+)?(\w+)\s*:", body)
+                names = re.findall(r"(?:pub(?:\([^)]*\))?\s+)?(\w+)\s*:(?!:)", body)
                 # keep declaration order, first occurrence of each
                 seen = []
                 for n in names:
@@ -1347,6 +1347,371 @@ def spec_nth_parse(ctx, make_exe):
             post(exe, s2, z3.BoolVal(bool(ok)), f.name, "the closure returns a coefficient pair (or an error value)")
     return {"closures": [f.name for f in closures], "paths": total}
 
+# ----------------------------------------------------------------------------
+# SPEC: size estimates of container nodes: sizes add, minimum widths take the maximum,
+#       prefixed blocks add their prefix, links reserve 5 columns
+# ----------------------------------------------------------------------------
+
+def spec_size_estimate_arms(ctx, make_exe):
+    f = the(ctx.find(r"::calc_size_estimate$", debug=["self", "context", "decorator", "estimate"]), "RenderNode::calc_size_estimate")
+    kinds = ["Container", "Em", "Block", "Div", "ListItem", "Link", "BlockQuote", "Ul", "Dd", "Header", "Ol", "Break", "FragStart"]
+    total = 0
+    import summaries
+    orig = summaries.summarize
+    for kind in kinds:
+        exe = make_exe(inline=[r"SizeEstimate::add$", r"SizeEstimate::add_hor$", r"<SizeEstimate as Default>::default$"], loop_bound=8)
+        st = State()
+        ests = []
+        for k in range(2):
+            sz = exe.fresh("usize", "child%d.size" % k)
+            mn = exe.fresh("usize", "child%d.min" % k)
+            st.pc += [z3.ULE(sz.e, u64(1 << 30)), z3.ULE(mn.e, u64(1 << 30))]
+            ests.append((sz, mn))
+        pw = exe.fresh("usize", "prefix.width")
+        st.pc.append(z3.ULE(pw.e, u64(1 << 20)))
+        kids = VVec([VOpaque("RenderNode", "child0"), VOpaque("RenderNode", "child1")])
+        if kind in ("Container", "Em", "Block", "Div", "ListItem", "BlockQuote", "Ul", "Dd"):
+            info = VAgg("RenderNodeInfo::" + kind, kind, [kids])
+        elif kind == "Link":
+            info = VAgg("RenderNodeInfo::Link", kind, [VOpaque("String", "href"), kids])
+        elif kind == "Header":
+            info = VAgg("RenderNodeInfo::Header", kind, [VInt(u64(2), 64, False), kids])
+        elif kind == "Ol":
+            info = VAgg("RenderNodeInfo::Ol", kind, [exe.fresh("i64", "ol.start"), kids])
+        elif kind == "Break":
+            info = VAgg("RenderNodeInfo::Break", kind, [])
+        else:
+            info = VAgg("RenderNodeInfo::FragStart", kind, [VOpaque("String", "frag")])
+        node = _agg(ctx, "RenderNode", info=info, size_estimate=VAgg("Cell", None, [VAgg("Option::None", "None", [])]))
+
+        def summ(exe_, st_, f_, bb_, callee, args, dest_ty, ests=ests, pw=pw):
+            c = callee.strip()
+            if re.search(r"RenderNode::calc_size_estimate::<", c) or re.search(r"^RenderNode::calc_size_estimate$", c):
+                child = args[0]
+                if isinstance(child, VRef):
+                    child = exe_.deref(st_, child)
+                k = int(child.name[-1])
+                return [(st_, _estimate(ctx, ests[k][0], ests[k][1], exe_.fresh("usize", exe_.fresh_name("child.prefix"))))]
+            if re.search(r"UnicodeWidthStr>::width$", c):
+                return [(st_, pw)]
+            if re.search(r"^calc_ol_prefix_size::<", c):
+                return [(st_, pw)]
+            if re.search(r"Cell::<.*>::set$", c):
+                return [(st_, VUnit())]
+            return orig(exe_, st_, f_, bb_, callee, args, dest_ty)
+        summaries.summarize = summ
+        try:
+            outs = exe.run(f.name, {1: VRef("val", node)}, st)
+        finally:
+            summaries.summarize = orig
+        total += len(outs)
+        ssum = ests[0][0].e + ests[1][0].e
+        mmax = z3.If(z3.UGT(ests[0][1].e, ests[1][1].e), ests[0][1].e, ests[1][1].e)
+        i_size, i_min, i_pre = ctx.field("SizeEstimate", "size"), ctx.field("SizeEstimate", "min_width"), ctx.field("SizeEstimate", "prefix_size")
+        for (s2, ret) in outs:
+            if not (isinstance(ret, VAgg) and len(ret.fields) == 3):
+                raise Inconclusive("calc_size_estimate(%s) did not return an estimate" % kind)
+            size, minw, pre = ret.fields[i_size].e, ret.fields[i_min].e, ret.fields[i_pre].e
+            if kind in ("Container", "Em", "Block", "Div", "ListItem"):
+                post(exe, s2, z3.And(size == ssum, minw == mmax), f.name, "%s: sizes add, the widest child minimum wins" % kind)
+            elif kind == "Link":
+                post(exe, s2, size == ssum + 5, f.name, "Link: reserves 5 columns of size")
+                post(exe, s2, minw == z3.If(z3.UGT(mmax, u64(5)), mmax, u64(5)), f.name,
+                     "Link: minimum width is max(children, 5), not the sum")
+            elif kind in ("BlockQuote", "Ul", "Header", "Ol", "Dd"):
+                post(exe, s2, z3.And(size == ssum + pw.e, minw == mmax + pw.e, pre == pw.e), f.name,
+                     "%s: prefix width is added to size and minimum width and recorded as prefix_size" % kind)
+            elif kind == "Break":
+                post(exe, s2, z3.And(size == 1, minw == 1), f.name, "Break: one column")
+            else:
+                post(exe, s2, z3.And(size == 0, minw == 0), f.name, "FragStart: no size")
+    return {"function": f.name, "paths": total}
+
+# ----------------------------------------------------------------------------
+# SPEC: flush_wrapping keeps fragment markers that are still waiting for a text line
+# ----------------------------------------------------------------------------
+
+def spec_flush_wrapping_frags(ctx, make_exe):
+    f = the(ctx.find(r"::flush_wrapping$", debug=["self"]), "SubRenderer::flush_wrapping")
+    total = 0
+    import summaries
+    orig = summaries.summarize
+    for nlines in (0, 1):
+        exe = make_exe(inline=[r"SubRenderer::<\w+>::extend_lines::<", r"SubRenderer::<\w+>::add_line$"], loop_bound=6)
+        old = VOpaque("TaggedLineElement", "frag_old")
+        new = VOpaque("TaggedLineElement", "frag_new")
+        sub = _agg(ctx, "SubRenderer", wrapping=VAgg("Option::Some", "Some", [VOpaque("WrappedBlock", "block")]),
+                   pending_frags=VVec([old]), lines=VOpaque("LinkedList", "lines"))
+        exe.cell_n += 1
+        cid = "cell%d" % exe.cell_n
+        exe.global_cells[cid] = sub
+        lines = [VOpaque("TaggedLine", "line%d" % k) for k in range(nlines)]
+        log = []
+
+        def summ(exe_, st_, f_, bb_, callee, args, dest_ty, lines=lines, new=new, log=log):
+            c = callee.strip()
+            if re.search(r"::take_trailing_fragments$", c):
+                return [(st_, VVec([new]))]
+            if re.search(r"WrappedBlock::<.*>::into_lines$", c):
+                return [(st_, VAgg("Result::Ok", "Ok", [VVec(lines)]))]
+            if re.search(r"Option::<.*>::take$", c):
+                cur = exe_.deref(st_, args[0])
+                exe_.write_ref(st_, args[0], [], VAgg("Option::None", "None", []), None)
+                return [(st_, cur)]
+            if re.search(r"TaggedLine::<.*>::new$", c):
+                return [(st_, VVec([]))]   # the line being assembled: a list of elements
+            if re.search(r"TaggedLine::<.*>::push$", c):
+                cur = exe_.deref(st_, args[0])
+                exe_.write_ref(st_, args[0], [], VVec(list(cur.elems) + [args[1]]), None)
+                return [(st_, VUnit())]
+            if re.search(r"^<TaggedLine<.*> as IntoIterator>::into_iter$", c):
+                return [(st_, VIter("vec", VVec([VOpaque("TaggedLineElement", getattr(args[0], "name", "line") + ".content")]), 0))]
+            if re.search(r"LinkedList::<.*>::push_back$", c):
+                log.append(args[1])
+                return [(st_, VUnit())]
+            return orig(exe_, st_, f_, bb_, callee, args, dest_ty)
+        summaries.summarize = summ
+        try:
+            outs = exe.run(f.name, {1: VRef("cell", cid)}, State())
+        finally:
+            summaries.summarize = orig
+        total += len(outs)
+        names = ctx.structs["SubRenderer"]
+        for (s2, ret) in outs:
+            blk = exe.deref(s2, VRef("cell", cid))
+            pend = blk.fields[names.index("pending_frags")]
+            got = [getattr(e, "name", "?") for e in pend.elems] if isinstance(pend, VVec) else None
+            emitted = []
+            for v in log:
+                emitted += [n for n in _names_in(v)]
+            if nlines == 0:
+                post(exe, s2, z3.BoolVal(got == ["frag_old", "frag_new"]), f.name,
+                     "no text line flushed: markers already waiting stay queued, new ones are appended (got %s)" % got)
+            else:
+                post(exe, s2, z3.BoolVal(got == ["frag_new"]), f.name, "a text line was flushed: only the new trailing markers wait (got %s)" % got)
+                post(exe, s2, z3.BoolVal("frag_old" in emitted), f.name, "the waiting marker is attached to the flushed line (emitted %s)" % emitted)
+    return {"function": f.name, "paths": total}
+
+
+def _names_in(v, depth=0):
+    out = []
+    if depth > 8:
+        return out
+    if isinstance(v, VOpaque):
+        out.append(v.name)
+    elif isinstance(v, VAgg):
+        for x in v.fields:
+            out += _names_in(x, depth + 1)
+    elif isinstance(v, VVec):
+        for x in v.elems:
+            out += _names_in(x, depth + 1)
+    return out
+
+# ----------------------------------------------------------------------------
+# SPEC: list items: continuation lines are indented by the bullet's display width (custom decorators)
+# ----------------------------------------------------------------------------
+
+def spec_prefix_width_ul(ctx, make_exe):
+    cands = [f for f in ctx.find(r"^do_render_node::\{closure#\d+\}$") if "indent" in f.debug]
+    f = the(cands, "the Ul item closure of do_render_node (the one that builds `indent`)")
+    exe = make_exe()
+    st = State()
+    pwidth = exe.fresh("usize", "prefix.width")
+    plen = exe.fresh("usize", "prefix.len")
+    st.pc += [z3.ULE(pwidth.e, u64(1 << 20)), z3.ULE(plen.e, u64(1 << 20))]
+    # captured environment, by the debug lines `debug NAME => ((*_1).K: T)`
+    caps = {}
+    for name, place in f.debug.items():
+        m = re.match(r"\(\(\*_1\)\.(\d+): (.*)\)$", place)
+        if m:
+            caps[int(m.group(1))] = (name, m.group(2))
+    fields = []
+    for k in range(max(caps) + 1 if caps else 0):
+        name, ty = caps.get(k, ("?", "?"))
+        if name == "prefix_len":
+            fields.append(pwidth)  # do_render_node computes it as the prefix's display width (checked by prefix_width_ul_len)
+        else:
+            fields.append(VOpaque(ty, "cap." + name))
+    env = VAgg("closure", None, fields)
+    import summaries
+    orig = summaries.summarize
+    seen = []
+
+    def summ(exe_, st_, f_, bb_, callee, args, dest_ty):
+        c = callee.strip()
+        if re.search(r"^String::len$", c):
+            return [(st_, plen)]
+        if re.search(r"UnicodeWidthStr>::width$", c):
+            return [(st_, pwidth)]
+        if re.search(r"std::str::<impl str>::repeat$", c):
+            seen.append((st_.clone(), args[1]))
+            return [(st_, VOpaque("String", "indent"))]
+        return orig(exe_, st_, f_, bb_, callee, args, dest_ty)
+    summaries.summarize = summ
+    try:
+        exe.run(f.name, {1: VRef("val", env)}, st)
+    finally:
+        summaries.summarize = orig
+    if not seen:
+        raise Inconclusive("the closure does not build its indentation with str::repeat")
+    for (s2, n) in seen:
+        if not isinstance(n, VInt):
+            raise Inconclusive("repeat count is not an integer")
+        post(exe, s2, n.e == pwidth.e, f.name, "list item: continuation lines are indented by the bullet's display width")
+    # the parent computes prefix_len from the display width
+    parent = the(ctx.find(r"^do_render_node$", debug=["prefix_len"]), "do_render_node")
+    pl = int(parent.debug["prefix_len"][1:])
+    src = None
+    for name in parent.order:
+        blk = parent.blocks[name]
+        t = blk.term
+        if t and t[0] == "call" and t[1] is not None and t[1].local == pl and not t[1].proj:
+            src = t[2]
+    post(exe, State(), z3.BoolVal(bool(src) and "UnicodeWidthStr" in src), parent.name,
+         "list: prefix_len is the prefix's display width (computed by %s)" % (src or "?")[:60])
+    return {"function": f.name}
+
+
+# ----------------------------------------------------------------------------
+# SPEC: strikeout: the closing affix is emitted after the strike filter is removed
+# ----------------------------------------------------------------------------
+
+def spec_strikeout_affix(ctx, make_exe):
+    f = the(ctx.find(r"::end_strikeout$", debug=["self"]), "SubRenderer::end_strikeout")
+    g = the(ctx.find(r"::start_strikeout$", debug=["self"]), "SubRenderer::start_strikeout")
+    total = 0
+    for fn, first, second, what in ((f, r"Vec::<for<'a> fn\(&'a str\).*>::pop$", r"as Renderer>::add_inline_text$",
+                                     "end_strikeout: the text filter is removed before the closing affix is emitted"),
+                                    (g, r"as Renderer>::add_inline_text$", r"Vec::<for<'a> fn\(&'a str\).*>::push$",
+                                     "start_strikeout: the opening affix is emitted before the text filter is installed")):
+        exe = make_exe()
+        uni = exe.fresh("bool", "use_unicode_strikeout")
+        opts = _agg(ctx, "RenderOptions", use_unicode_strikeout=uni)
+        sub = _agg(ctx, "SubRenderer", options=opts)
+        exe.cell_n += 1
+        cid = "cell%d" % exe.cell_n
+        exe.global_cells[cid] = sub
+        outs = exe.run(fn.name, {1: VRef("cell", cid)}, State())
+        total += len(outs)
+        for (s2, ret) in outs:
+            seq = [c[0] for c in s2.calls]
+            i1 = [i for i, c in enumerate(seq) if re.search(first, c)]
+            i2 = [i for i, c in enumerate(seq) if re.search(second, c)]
+            filt = i1 if "pop" in first else i2
+            if isinstance(ret, VAgg) and ret.variant == "Ok":
+                post(exe, s2, uni.e == z3.BoolVal(bool(filt)), fn.name, "the strike filter is touched exactly when unicode strikeout is enabled")
+            if i1 and i2:
+                post(exe, s2, z3.BoolVal(i1[0] < i2[0]), fn.name, what)
+    return {"functions": [f.name, g.name], "paths": total}
+
+# ----------------------------------------------------------------------------
+# SPEC: the CSS tokenizer always makes progress (every Ok result consumes at least one byte)
+# ----------------------------------------------------------------------------
+
+def spec_css_token_progress(ctx, make_exe):
+    f = the(ctx.find(r"^parse_token$", debug=["text", "rest", "chars"]), "css::parser::parse_token")
+    exe = make_exe(inline=[r"parser::is_digit$", r"^is_digit$", r"is_ident_start$"], loop_bound=6)
+    st = State()
+    off0 = exe.fresh("usize", "rest.offset")     # position of `rest` (after optional whitespace) in the stylesheet
+    n0 = exe.fresh("usize", "rest.len")
+    ch = exe.fresh("u32", "first_char")
+    st.pc += [z3.ULE(off0.e, u64(1 << 30)), z3.ULE(n0.e, u64(1 << 30)), z3.ULE(ch.e, z3.BitVecVal(0x10ffff, 32))]
+    exe.hints = [ch.e >= 0x21, ch.e <= 0x7e]
+    # a non-empty slice holds its whole first character
+    l8 = z3.If(z3.ULT(ch.e, 0x80), u64(1), z3.If(z3.ULT(ch.e, 0x800), u64(2), z3.If(z3.ULT(ch.e, 0x10000), u64(3), u64(4))))
+    st.pc.append(z3.Or(n0.e == 0, z3.UGE(n0.e, l8)))
+
+    def slc(off, n):
+        return VAgg("StrSlice", None, [off, n])
+    rest0 = slc(off0, n0)
+    import summaries
+    orig = summaries.summarize
+    subparsers = r"^(parse_numeric_token|parse_ident_like|parse_string_token|parse_identstring|parse_ident)$"
+
+    def as_slice(v, exe_, st_):
+        if isinstance(v, VRef):
+            v = exe_.deref(st_, v)
+        return v if isinstance(v, VAgg) and v.path == "StrSlice" else None
+
+    def summ(exe_, st_, f_, bb_, callee, args, dest_ty):
+        c = callee.strip()
+        if re.search(r"^skip_optional_whitespace$", c):
+            return [(st_, VAgg("Result::Ok", "Ok", [VAgg("tuple", None, [VRef("val", rest0), VUnit()])]))]
+        if re.search(r"core::str::<impl str>::chars$", c):
+            return [(st_, VIter("vec", VVec([ch]), 0))]   # only the first character is inspected
+        if re.search(r"^<Chars<'_> as Iterator>::next$", c):
+            it = exe_.deref(st_, args[0])
+            outs = []
+            if it.pos == 0:
+                some = st_.clone()
+                some.pc.append(n0.e != 0)
+                exe_.write_ref(some, args[0], [], VIter("vec", it.src, 1), None)
+                outs.append((some, VAgg("Option::Some", "Some", [ch])))
+                none = st_.clone()
+                none.pc.append(n0.e == 0)
+                outs.append((none, VAgg("Option::None", "None", [])))
+                return outs
+            return [(st_, VAgg("Option::None", "None", []))]
+        if re.search(r"^<str as Index<std::ops::RangeFrom<usize>>>::index$", c):
+            sl = as_slice(args[0], exe_, st_)
+            start = args[1].fields[0] if isinstance(args[1], VAgg) else None
+            if sl is not None and isinstance(start, VInt):
+                off, n = sl.fields
+                exe_.oblige(st_, z3.ULE(start.e, n.e), "panic", f_.name, bb_, "byte index out of range of the string slice", tag="bounds")
+                return [(st_, VRef("val", slc(VInt(off.e + start.e, 64, False), VInt(n.e - start.e, 64, False))))]
+            return None
+        if re.search(r"char::methods::<impl char>::len_utf8$", c):
+            cc = args[0].e
+            return [(st_, VInt(z3.If(z3.ULT(cc, 0x80), u64(1), z3.If(z3.ULT(cc, 0x800), u64(2), z3.If(z3.ULT(cc, 0x10000), u64(3), u64(4)))), 64, False))]
+        if re.search(subparsers, c) or re.search(r"strip_prefix::<", c):
+            # a sub-parser either fails or returns a strictly shorter remainder (its own progress is its own obligation)
+            sl = as_slice(args[0], exe_, st_)
+            if sl is None:
+                return None
+            off, n = sl.fields
+            k = exe_.fresh("usize", exe_.fresh_name("consumed"))
+            ok = st_.clone()
+            ok.pc += [z3.UGE(k.e, u64(1)), z3.ULE(k.e, n.e)]
+            rem = VRef("val", slc(VInt(off.e + k.e, 64, False), VInt(n.e - k.e, 64, False)))
+            outs = []
+            if "strip_prefix" in c:
+                outs.append((ok, VAgg("Option::Some", "Some", [rem])))
+                outs.append((st_.clone(), VAgg("Option::None", "None", [])))
+            else:
+                outs.append((ok, VAgg("Result::Ok", "Ok", [VAgg("tuple", None, [rem, VOpaque("Token", exe_.fresh_name("tok"))])])))
+                outs.append((st_.clone(), VAgg("Result::Err", "Err", [VOpaque("nom::Err", "suberr")])))
+            return outs
+        if re.search(r"char::methods::<impl char>::is_ascii_digit$", c):
+            cc = args[0]
+            if isinstance(cc, VRef):
+                cc = exe_.deref(st_, cc)
+            return [(st_, VBool(z3.And(z3.UGE(cc.e, 0x30), z3.ULE(cc.e, 0x39))))]
+        if re.search(r"^fail::<", c):
+            return [(st_, VAgg("Result::Err", "Err", [VOpaque("nom::Err", "fail")]))]
+        if re.search(r" as std::convert::Into<", c):
+            return [(st_, VOpaque("Cow", exe_.fresh_name("cow")))]
+        return orig(exe_, st_, f_, bb_, callee, args, dest_ty)
+    summaries.summarize = summ
+    try:
+        outs = exe.run(f.name, {1: VRef("val", slc(exe.fresh("usize", "text.offset"), exe.fresh("usize", "text.len")))}, st)
+    finally:
+        summaries.summarize = orig
+    n_ok = 0
+    for (s2, ret) in outs:
+        if not (isinstance(ret, VAgg) and ret.variant in ("Ok", "Err")):
+            raise Inconclusive("parse_token did not return a Result (%r)" % (ret,))
+        if ret.variant == "Err":
+            continue
+        n_ok += 1
+        tup = ret.fields[0]
+        rem = as_slice(tup.fields[0], exe, s2)
+        if rem is None:
+            raise Inconclusive("parse_token's remainder is not a slice of its input")
+        post(exe, s2, z3.UGT(rem.fields[0].e, off0.e), f.name, "a successfully parsed token consumes at least one byte (the tokenizer makes progress)")
+    if n_ok < 10:
+        raise Inconclusive("only %d successful paths through parse_token" % n_ok)
+    return {"function": f.name, "paths": len(outs), "ok_paths": n_ok}
+
 
 ALL = [
     Spec("table_col_width", ["C06", "C02", "C01"], spec_table_col_width,
@@ -1426,6 +1791,33 @@ ALL = [
          bounds="digit strings of any length (integer parsing either yields a non-negative i32 or fails); any sign",
          assumptions=["<i32 as FromStr>::from_str by contract on digit-only input", "the nom combinators around the closures are not executed"],
          replay=lambda fd, vals, info: {"harness": "m_nth_parse", "values": [[0]]}),
+    Spec("size_estimate_arms", ["C11", "C07", "C16"], spec_size_estimate_arms,
+         functions=["RenderNode::calc_size_estimate (container, link, blockquote, ul, dd, header, ol, break, fragment arms)",
+                    "SizeEstimate::add", "SizeEstimate::add_hor"],
+         bounds="two children with arbitrary estimates (< 2^30), arbitrary prefix display width (< 2^20)",
+         assumptions=["children's estimates are arbitrary symbolic values (the recursion is cut)", "UnicodeWidthStr::width / calc_ol_prefix_size return an arbitrary width",
+                      "the Text / Img arm (character loop) is not covered"],
+         replay=lambda fd, vals, info: {"harness": "m_link_min_width", "values": [[0]]}),
+    Spec("flush_wrapping_frags", ["C14"], spec_flush_wrapping_frags,
+         functions=["SubRenderer::flush_wrapping", "SubRenderer::extend_lines", "SubRenderer::add_line"],
+         bounds="one marker already waiting, one new trailing marker, the block flushes 0 or 1 text lines",
+         assumptions=["WrappedBlock::{take_trailing_fragments, into_lines} return the given markers / lines (the block itself is covered by the wrap specs)",
+                      "a line under assembly is a list of elements; LinkedList::push_back is observed"],
+         replay=lambda fd, vals, info: {"harness": "m_frag_nested", "values": [[0]]}),
+    Spec("prefix_width_ul", ["C16"], spec_prefix_width_ul,
+         functions=["do_render_node::{closure} (Ul item: pop, indent, append_subrender)", "do_render_node (prefix_len)"],
+         bounds="byte length and display width of the bullet independent values < 2^20",
+         assumptions=["String::len and UnicodeWidthStr::width return unrelated integers"],
+         replay=lambda fd, vals, info: {"harness": "m_prefix_width", "values": [[1]]}),
+    Spec("strikeout_affix", ["C16", "C15"], spec_strikeout_affix,
+         functions=["SubRenderer::end_strikeout", "SubRenderer::start_strikeout"],
+         bounds="unicode strikeout flag symbolic", assumptions=["calls are observed (order), not executed"],
+         replay=lambda fd, vals, info: {"harness": "m_strike_affix", "values": [[0]]}),
+    Spec("css_token_progress", ["C17", "C01"], spec_css_token_progress,
+         functions=["css::parser::parse_token", "is_ident_start", "is_digit"],
+         bounds="any first character (any Unicode scalar), any remaining length; every match arm of the tokenizer",
+         assumptions=["strings are (offset, length) slices of the stylesheet", "sub-parsers either fail or consume at least one byte (their own obligation)"],
+         replay=lambda fd, vals, info: {"harness": "m_css_progress", "values": [le_bytes(int(vals.get("first_char", 35)), 4)]}),
     Spec("table_alloc_2col", ["C06", "C02", "C01", "C03"], spec_table_alloc_2,
          functions=["render_table_tree (whole function incl. estimate loop, allocation closures, shrink loop)",
                     "RenderTable::rows", "RenderTableRow::cells", "RenderTableCell::get_size_estimate", "SizeEstimate::max",
